@@ -15,12 +15,15 @@ import (
 	"github.com/openconfig/gnmi/proto/gnmi"
 	"google.golang.org/protobuf/proto"
 	"io"
+	"sync"
 )
 
 // Tracks the NB stream, the originating NB subscription request and the split SB requests
 // for the referenced targets and possibly other request related context.
 type subContext struct {
 	stream gnmi.GNMI_SubscribeServer
+	// sendMu serialises the writes of the per-target response monitors to the one NB stream
+	sendMu sync.Mutex
 	req    *gnmi.SubscribeRequest
 	treqs  map[string]*gnmi.SubscribeRequest
 }
@@ -125,6 +128,8 @@ func (s *Server) sendSubscriptionRequest(ctx context.Context, sctx *subContext, 
 			return errors.NewInvalid("Failed to type assert message %#v", msg)
 		}
 		log.Infof("Forwarding response from target %s to client: %+v", target, resp)
+		sctx.sendMu.Lock()
+		defer sctx.sendMu.Unlock()
 		return sctx.stream.Send(resp)
 	}
 
